@@ -243,8 +243,14 @@ class AbstractHasAxes(AbstractHasMetadata):
             if len(newdims) != len(self.dims):
                 raise ValueError("dimensions number mismatch")
             newdims = dict(zip(self.dims, newdims))
-        for old in newdims.keys():
-            self.axes[old].name = newdims[old]
+        # look up all axes before renaming any (the new names may permute the old ones)
+        pairs = [(self.axes[old], newdims[old]) for old in newdims.keys()]
+        renamed = dict((id(ax), new) for ax, new in pairs)
+        final = [renamed.get(id(ax), ax.name) for ax in self.axes]
+        if len(set(final)) != len(final):
+            raise ValueError("duplicate dimension names: {}".format(final))
+        for ax, new in pairs:
+            ax.name = new
 
     @property
     def axes(self):
